@@ -26,6 +26,19 @@ PARTS = HEAD + consts('LEAD_SIZE', 'INDEX_HEADER_SIZE', 'INDEX_ENTRY_SIZE', 'HEA
 /// state (a name for it; what it contains is proved on the verbatim `build` in unit c08_sigbuild)
 pub uninterp spec fn built_sig(sha256: Option<Seq<char>>, sigs: Seq<Seq<u8>>) -> Header<IndexSignatureTag>;
 pub open spec fn sigs_view(v: Seq<Vec<u8>>) -> Seq<Seq<u8>> { Seq::new(v.len(), |i: int| v[i]@) }
+/// the view of an empty list / of a list after a push (stated once, anchor-free: any body that builds its
+/// signature list by pushing is judged on its merits, not on the position of a hint)
+pub broadcast proof fn lemma_sigs_view_empty(v: Seq<Vec<u8>>)
+    requires v.len() == 0,
+    ensures #[trigger] sigs_view(v) == Seq::<Seq<u8>>::empty(),
+{
+    assert(sigs_view(v) =~= Seq::<Seq<u8>>::empty());
+}
+pub broadcast proof fn lemma_sigs_view_push(v: Seq<Vec<u8>>, x: Vec<u8>)
+    ensures #[trigger] sigs_view(v.push(x)) == sigs_view(v).push(x@),
+{
+    assert(sigs_view(v.push(x)) =~= sigs_view(v).push(x@));
+}
 pub open spec fn opt_view(o: Option<String>) -> Option<Seq<char>> { match o { Some(s) => Some(s@), None => None } }
 /// R12: `&str::to_owned`
 #[verifier::external_body]
@@ -66,11 +79,7 @@ impl Package {
         r is Ok ==> final(self).metadata.signature == built_sig(Some(header_digest(*old(self))), Seq::<Seq<u8>>::empty()),
         r is Ok ==> get_str(final(self).metadata.signature, 273) == Some(header_digest(*final(self))),
         r is Err ==> final(self).metadata.signature == old(self).metadata.signature,''',
-       prologue='''proof {
-            assert forall|v: Seq<Vec<u8>>| v.len() == 0 implies #[trigger] sigs_view(v) == Seq::<Seq<u8>>::empty() by {
-                assert(sigs_view(v) =~= Seq::<Seq<u8>>::empty());
-            }
-        }'''),
+       prologue='broadcast use lemma_sigs_view_empty, lemma_sigs_view_push;'),
     Fn(PKG, 'sign_with_timestamp', impl='impl Package',
        subs=[ret(),
              ('S: signature::Signing<Signature = Vec<u8>>', 'S: signature::Signing', 1, 'R5-associated-type-binding'),
@@ -87,13 +96,7 @@ impl Package {
             seq![signer.signed(ser_header(old(self).metadata.header), t)]),
         r is Ok ==> get_str(final(self).metadata.signature, 273) == Some(header_digest(*final(self))),
         r is Err ==> final(self).metadata.signature == old(self).metadata.signature,''',
-       before=[('let sig_header = SignatureHeaderBuilder::new()', '''let ghost hs = header_signature@;
-        proof {
-            assert forall|v: Seq<Vec<u8>>| v.len() == 0 implies sigs_view(#[trigger] v.push(header_signature)) == seq![hs] by {
-                assert(sigs_view(v.push(header_signature)) =~= seq![hs]);
-            }
-        }
-        ''')],
+       prologue='broadcast use lemma_sigs_view_empty, lemma_sigs_view_push;',
        ),
     Raw('''}
 '''),
@@ -111,12 +114,7 @@ impl PackageBuilder {
        spec='''    ensures
         r is Ok ==> get_str(r->Ok_0.metadata.signature, 273) == Some(header_digest(r->Ok_0)),
         r is Ok ==> r->Ok_0.metadata.signature == built_sig(Some(header_digest(r->Ok_0)), Seq::<Seq<u8>>::empty()),''',
-       before=[('let (lead, header_idx_tag, content)', '''proof {
-            assert forall|v: Seq<Vec<u8>>| v.len() == 0 implies #[trigger] sigs_view(v) == Seq::<Seq<u8>>::empty() by {
-                assert(sigs_view(v) =~= Seq::<Seq<u8>>::empty());
-            }
-        }
-        ''')]),
+       prologue='broadcast use lemma_sigs_view_empty, lemma_sigs_view_push;'),
     Raw('}\n'),
     # ---- C08: hashing writer --------------------------------------------------------------
     Decl(TYPES, 'struct', 'Sha256Writer'),
